@@ -132,7 +132,7 @@ def model_line(c):
             ops.append({"op": "callback", "sess": op["sess"], "name": op["name"], "state": op.get("state")})
         else:
             ops.append(op)
-    return {"cfg": {"cache": c["cache"], "starlette": c["fw"] == "starlette", "now": cw.NOW0}, "ops": ops}
+    return {"cfg": {"cache": c["cache"], "starlette": c["fw"] == "starlette", "now": cw.NOW0, "defaults": {c["names"][-1]: "https://rp/registered-default"}}, "ops": ops}
 
 
 def model_canon(mo):
